@@ -67,6 +67,9 @@ def alpha_dicts(values, max_keys, assets=ASSETS):
 
 class Machine(object):
     def __init__(self, sizer_kind, fee, preset):
+        # preset 'long_AB_npstr': the symbols are numpy strings (a str subclass), as np.unique(tickers) yields them
+        self.nm = (lambda a: np.str_(a)) if preset.endswith('_npstr') else (lambda a: a)
+        preset_key = preset.replace('_npstr', '')
         from qstrader.broker.simulated_broker import SimulatedBroker
         from qstrader.exchange.simulated_exchange import SimulatedExchange
         from qstrader.execution.order import Order
@@ -75,7 +78,7 @@ class Machine(object):
         from qstrader.portcon.order_sizer.dollar_weighted import DollarWeightedCashBufferedOrderSizer
         from qstrader.portcon.order_sizer.long_short import LongShortLeveragedOrderSizer
         self.stub = Stub()
-        funds = 50000000.0 if preset == 'large' else 100000.0
+        funds = 50000000.0 if preset_key == 'large' else 100000.0
         self.broker = SimulatedBroker(T0, SimulatedExchange(T0), self.stub, initial_funds=funds, fee_model=make_fee(fee))
         self.broker.create_portfolio('p')
         self.broker.subscribe_funds_to_portfolio('p', funds)
@@ -87,8 +90,8 @@ class Machine(object):
                                               alpha_model=self.stub, data_handler=self.stub)
         self.stats = {'target_allocations': []}
         self.round = 0
-        for a, q in PRESETS[preset]:
-            self.broker.submit_order('p', Order(T0, a, q))
+        for a, q in PRESETS[preset_key]:
+            self.broker.submit_order('p', Order(T0, self.nm(a), q))
         self.broker.update(T0)
 
     def held(self):
@@ -101,8 +104,8 @@ class Machine(object):
         i = self.round
         dt, dt_open = CLOSES[i], OPENS[i]
         self.stub.table = table
-        self.stub.universe = list(uni)
-        self.stub.alpha = dict(alpha_items)
+        self.stub.universe = [self.nm(a) for a in uni]
+        self.stub.alpha = {self.nm(a): w for a, w in alpha_items}
         self.broker.update(dt)
         held = self.held()
         S = sorted(set(uni) | set(held) | set(self.stub.alpha))
@@ -223,6 +226,11 @@ def run(tier, res, is_known):
                 recheck=6)
             if any(not is_known(v) for v in res.violations):
                 return
+    for sizer_kind in ('long_only', 'long_short'):
+        spec = Spec(sizer_kind, ('zero',), 'long_AB_npstr', menus(sizer_kind, 'quick'))
+        bfs(spec, 2, res, is_known, label='%s, numpy-string symbols' % sizer_kind, recheck=4)
+        if any(not is_known(v) for v in res.violations):
+            return
     for sizer_kind in ('long_only', 'long_short'):
         spec = Spec(sizer_kind, ('zero',), 'large', large_menus(sizer_kind))
         bfs(spec, 2, res, is_known, label='%s zero fee, large holdings' % sizer_kind, recheck=6)
